@@ -42,10 +42,16 @@ Definition sconcat (l : list string) : string := fold_right String.append EmptyS
 (* ------------------------------------------------------------------------------------------------ *)
 (* the world: what is importable / reachable now                                                     *)
 (* ------------------------------------------------------------------------------------------------ *)
+(* What the environment must say about a function object: its OWN names.  fr_mod = str(getattr(f, "__module__", "?")),
+   fr_qual = f.__qualname__ if it has one (get_func_in_module compares it with the recorded qualname). *)
+Record fref := FRef { fr_mod : string; fr_qual : option string }.
+Definition fqname (f : fref) : string :=
+  (fr_mod f ++ "." ++ match fr_qual f with Some q => q | None => "?" end)%string.
+
 Inductive okind :=
-| KFunc (f : string)        (* types.FunctionType or BuiltinFunctionType; f = __module__ + "." + __qualname__ *)
-| KMethod (f : string)      (* types.MethodType; f names its __func__ *)
-| KProperty (fget : option string) (settable : bool)   (* property; settable = fset or fdel present *)
+| KFunc (f : fref)          (* types.FunctionType or BuiltinFunctionType *)
+| KMethod (f : fref)        (* types.MethodType; f describes its __func__ *)
+| KProperty (fget : option fref) (settable : bool)   (* property; settable = fset or fdel present *)
 | KClass (c : string)       (* isinstance(o, type) *)
 | KAny                      (* typing.Any *)
 | KGeneric (g : string)     (* compat.is_generic: typing.Union, typing.List, List[int], ... *)
@@ -76,6 +82,7 @@ Inductive mterr :=
 | PropSettable (m q : string)                 (* InvalidTypeError, util.py:37 *)
 | PropNoGetter (m q : string)                 (* InvalidTypeError, util.py:41 *)
 | NotFunction (m q tyrepr : string)           (* InvalidTypeError, util.py:45 *)
+| WrongName (m q fmod fqual : string)         (* InvalidTypeError: the name is bound to another function *)
 | NotType (m q tyrepr : string).              (* InvalidTypeError, encoding.py:116 *)
 
 Inductive mtclass := NameLookupError | InvalidTypeError.
@@ -92,6 +99,8 @@ Definition mt_msg (e : mterr) : string :=
   | PropSettable m q => sconcat ["Property "; m; "."; q; " has setter or deleter."]
   | PropNoGetter m q => sconcat ["Property "; m; "."; q; " is missing getter"]
   | NotFunction m q t => sconcat [m; "."; q; " is of type '"; t; "', not function."]
+  | WrongName m q fm fq => sconcat [m; "."; q; " is bound to the function "; fm; "."; fq;
+                                    ", not to a function of that name."]
   | NotType m q t => sconcat ["Attribute specified by '"; q; "' in module '"; m; "' is of type "; t; ", not type."]
   end%string.
 
@@ -143,13 +152,21 @@ Fixpoint unwrap (o : obj) : obj :=
   end.
 
 (* django is absent in this environment (compat.cached_property is None), so that branch never fires *)
+(* the last step: the function found must carry the recorded qualified name
+   (getattr(func, "__qualname__", qualname) != qualname -> InvalidTypeError) *)
+Definition check_name (m q : string) (f : fref) : result string :=
+  match fr_qual f with
+  | Some fq => if String.eqb fq q then Ok (fqname f) else MTError (WrongName m q (fr_mod f) fq)
+  | None => Ok (fqname f)
+  end.
+
 Definition func_of_obj (m q : string) (o : obj) : result string :=
   match unwrap o with
-  | Obj (KMethod f) _ _ => Ok f
-  | Obj (KProperty (Some f) false) _ _ => Ok f
+  | Obj (KMethod f) _ _ => check_name m q f
+  | Obj (KProperty (Some f) false) _ _ => check_name m q f
   | Obj (KProperty (Some _) true) _ _ => MTError (PropSettable m q)
   | Obj (KProperty None _) _ _ => MTError (PropNoGetter m q)
-  | Obj (KFunc f) _ _ => Ok f
+  | Obj (KFunc f) _ _ => check_name m q f
   | Obj _ t _ => MTError (NotFunction m q t)
   end.
 
